@@ -97,36 +97,34 @@ KFW = os.path.join(CRATE, "kfwitness")
 
 
 def kf_witnesses():
-    """Compiles the witness inputs of the open compile-time findings against /repo's working tree.
-    Returns {witness id: first rustc error text | None (compiles)}."""
-    import re
+    """Compiles the witness inputs of the open compile-time findings against /repo's working tree, each on its own
+    (rustc stops at the first failing phase). Returns {witness id: rustc's errors | None (compiles)}."""
+    import re, concurrent.futures as cf
     shutil.copyfile("/repo/Cargo.lock", os.path.join(KFW, "Cargo.lock"))
-    rc, out = sh(["cargo", "build", "--offline", "--target-dir", os.path.join(BUILD, "kfwitness")], cwd=KFW)
-    markers = []
-    for n, line in enumerate(open(os.path.join(KFW, "src", "lib.rs")), 1):
-        m = re.match(r"\s*// @witness (\S+) (\w+)", line)
-        if m:
-            markers.append((n, m.group(1), m.group(2)))
-    res = {w: None for _, w, side in markers if side == "dm"}
-    if rc == 0:
-        return res
-    seen_any = False
-    for b in re.split(r"\n(?=error)", out):
-        if not b.startswith("error") or b.startswith("error: could not compile") or b.startswith("error: aborting"):
-            continue
-        locs = re.findall(r"--> src/lib\.rs:(\d+):", b)
-        prev = [m for m in markers if locs and m[0] <= int(locs[0])]
-        if not prev or prev[-1][2] != "dm":
-            raise Harness("kfwitness does not build for a reason outside derive_more's derives:\n" + out[-4000:])
-        seen_any = True
-        w = prev[-1][1]
-        if res[w] is None:
-            res[w] = b.strip()[:1500]
-        else:
-            res[w] += "\n" + b.strip()[:600]
-    if not seen_any:
-        raise Harness("kfwitness does not build:\n" + out[-4000:])
-    return res
+    target = os.path.join(BUILD, "kfwitness")
+    rc, out = sh(["cargo", "build", "--offline", "--target-dir", target], cwd=KFW)
+    if rc != 0:
+        raise Harness("kfwitness (std twins only) does not build:\n" + out[-4000:])
+    deps = os.path.join(target, "debug", "deps")
+    rl = sorted((f for f in os.listdir(deps) if re.match(r"libderive_more-[0-9a-f]+\.rlib$", f)), key=lambda f: os.path.getmtime(os.path.join(deps, f)))
+    if not rl:
+        raise Harness("kfwitness: no libderive_more rlib under " + deps)
+    src = os.path.join(KFW, "src", "lib.rs")
+    ids = re.findall(r"// @witness (\S+) dm", open(src).read())
+
+    def one(w):
+        rc, out = sh(["rustc", "--edition", "2021", "--crate-type", "lib", "--crate-name", "kfwitness", "--emit=metadata", "--cfg", 'w="%s"' % w,
+                      "-L", "dependency=" + deps, "--extern", "derive_more=" + os.path.join(deps, rl[-1]),
+                      "-o", os.path.join(target, "w-%s.rmeta" % w), src])
+        if rc == 0:
+            return w, None
+        errs = [b.strip()[:900] for b in re.split(r"\n(?=error)", out) if b.startswith("error") and not b.startswith("error: aborting") and not b.startswith("error: could not compile")]
+        if not errs:
+            raise Harness("kfwitness %s: rustc failed without an error:\n%s" % (w, out[-2000:]))
+        return w, "\n".join(errs)[:3000]
+
+    with cf.ThreadPoolExecutor(max_workers=8) as ex:
+        return dict(ex.map(one, ids))
 
 
 def corpus_src(idx):
